@@ -115,7 +115,7 @@ func conv(v interface{}, t tkind) (interface{}, convRes) {
 
 func hashable(v interface{}) bool {
 	switch v.(type) {
-	case []interface{}, map[interface{}]interface{}, []int64, []string, []float64, map[string]int64:
+	case []interface{}, map[interface{}]interface{}, []int64, []string, []float64, [][]int64, map[string]int64:
 		return false
 	}
 	return true
@@ -129,9 +129,16 @@ func fail()            { panic(mErr{}) }
 func undet(why string) { panic(mUndet{why}) }
 
 type machine struct {
-	g      map[string]interface{}
-	local  map[string]interface{}
-	taintX bool // x was bound to a scalar read from a typed container / struct field (see notes: aliasing of x with that slot is not compared)
+	g     map[string]interface{}
+	local map[string]interface{}
+	// taintRoot: the variable the slot lives in (st, rows, ts, t, ...);
+	// taintDirty: that variable was stored to (or passed to a function) since x
+	// was bound.  anko's x then follows the slot's NEW content, Go's x is the old
+	// copy: what an operation through x does is then not determined by the
+	// property, and such operations are skipped.
+	taintRoot  string
+	taintDirty bool
+	taintX     bool // x was bound to a scalar read from a typed container / struct field (see notes: aliasing of x with that slot is not compared)
 	// hintErr: the implementation reported an error for the current operation;
 	// used ONLY to pick a resolution where the property allows two (a slice
 	// bound in (len, cap]).
@@ -212,6 +219,8 @@ func lenOf(v interface{}) (int, bool) {
 		return len(c), true
 	case []float64:
 		return len(c), true
+	case [][]int64:
+		return len(c), true
 	case string:
 		return len(c), true
 	case map[interface{}]interface{}:
@@ -231,6 +240,8 @@ func capOf(v interface{}) int {
 	case []string:
 		return cap(c)
 	case []float64:
+		return cap(c)
+	case [][]int64:
 		return cap(c)
 	}
 	return 0
@@ -318,6 +329,12 @@ func (m *machine) index(c, i interface{}) interface{} {
 			fail()
 		}
 		return cv[k]
+	case [][]int64:
+		k := toIndex(i)
+		if k < 0 || k >= len(cv) {
+			fail()
+		}
+		return cv[k] // a copy of the element's slice header, as in Go
 	case string:
 		k := toIndex(i)
 		if k < 0 || k >= len(cv) {
@@ -660,6 +677,27 @@ func (m *machine) assign(lhs expr, v interface{}) {
 				return
 			}
 			cv[k] = x
+		case [][]int64:
+			k := toIndex(i)
+			if k < 0 || k > len(cv) {
+				fail()
+			}
+			var x []int64
+			switch e := v.(type) {
+			case []int64:
+				x = e
+			case nil:
+				x = nil
+			case []interface{}, []float64, []string:
+				undet("conversion without a Go counterpart")
+			default:
+				fail()
+			}
+			if k == len(cv) {
+				m.assign(l.c, append(cv, x))
+				return
+			}
+			cv[k] = x
 		case []float64:
 			k := toIndex(i)
 			if k < 0 || k > len(cv) {
@@ -762,8 +800,39 @@ func (m *machine) typedRead(e expr) bool {
 		return false
 	}
 	switch m.eval(c).(type) {
-	case []int64, []string, []float64, *mst:
+	case []int64, []string, []float64, [][]int64, *mst:
 		return true
+	}
+	return false
+}
+
+// rootVar: the variable an index / member / slice chain starts from.
+func rootVar(e expr) string {
+	switch x := e.(type) {
+	case eVar:
+		return x.name
+	case eIdx:
+		return rootVar(x.c)
+	case eMem:
+		return rootVar(x.c)
+	case eSlc:
+		return rootVar(x.c)
+	}
+	return ""
+}
+
+// storesInto: may s change something reachable from variable name by a store
+// that starts at that variable (assignment target, delete, call argument)?
+func storesInto(s stmt, name string) bool {
+	switch x := s.(type) {
+	case sLet:
+		return rootVar(x.lhs) == name
+	case sAddEq:
+		return rootVar(x.lhs) == name
+	case sDel:
+		return rootVar(x.m) == name
+	case sCall:
+		return rootVar(x.arg) == name
 	}
 	return false
 }
@@ -777,6 +846,7 @@ func (m *machine) run(s stmt) (val interface{}, hasVal bool) {
 		m.assign(x.lhs, v)
 		if lv, ok := x.lhs.(eVar); ok && lv.name == "x" && m.local == nil {
 			m.taintX = m.typedRead(x.rhs)
+			m.taintRoot, m.taintDirty = rootVar(x.rhs), false
 		}
 		return nil, false
 	case sAddEq:
@@ -840,6 +910,9 @@ type outcome struct {
 // machine.hintErr.
 func (m *machine) exec(s stmt, implErr bool) (out outcome) {
 	m.hintErr, m.usedAlt = implErr, false
+	if m.taintX && m.taintRoot != "" && storesInto(s, m.taintRoot) {
+		defer func() { m.taintDirty = true }()
+	}
 	defer func() {
 		out.alt = m.usedAlt
 		if r := recover(); r != nil {
